@@ -83,8 +83,10 @@ def spec_c10(case, trace):
                 if w and w[0] == "schedule":
                     scheduled.add(int(w[1]))
     must_deliver = set()
+    woken = {}          # thread -> tasks it wakes
     for l in case:
         if l.startswith("thread "):
+            tid = int(l.split()[1].rstrip(":"))
             ops = [x.split() for x in l.split(":", 1)[1].split(";") if x.split()]
             done = set()
             for o in ops:
@@ -92,6 +94,9 @@ def spec_c10(case, trace):
                     done.add(int(o[1]))
                 elif o[0] == "wake" and int(o[1]) in done:
                     must_deliver.add(int(o[1]))
+                if o[0] == "wake":
+                    woken.setdefault(tid, set()).add(int(o[1]))
+    first_polls = {}    # thread -> polls per task when the thread made its first step
     steps = [l.split() for l in trace if l.startswith("step ")]
     last_deliv = []
     threads_done, nthreads = set(), sum(1 for l in case if l.startswith("thread "))
@@ -113,6 +118,8 @@ def spec_c10(case, trace):
                 return "task %d's output was delivered although it was never polled" % d
         if t != 0 and prev_polls is not None and polls != prev_polls:
             return "a future was polled during a step of a waker thread"
+        if t != 0 and t not in first_polls:
+            first_polls[t] = prev_polls if prev_polls is not None else polls
         prev_polls, last_deliv = polls, deliv
         if t != 0 and label in ("done", "skip"):
             threads_done.add(t)
@@ -123,6 +130,13 @@ def spec_c10(case, trace):
                 if missing:
                     return ("task %s was completed and then woken, every waker thread has finished, the loop keeps dispatching and finds nothing "
                             "(eventfd counter 0) — its output was never delivered: a wake was lost" % missing)
+                # a wake that returned is followed by a poll of the task (whether this wake or an earlier one scheduled it)
+                for th, tasks in woken.items():
+                    for x in sorted(tasks & scheduled):
+                        if th in first_polls and x < len(polls) and x not in deliv and polls[x] <= first_polls[th][x]:
+                            return ("thread %d woke task %d (polled %d times by then) and returned, every waker thread has finished, the loop keeps "
+                                    "dispatching and finds nothing (eventfd counter 0) — the task was never polled again: a wake was lost"
+                                    % (th, x, first_polls[th][x]))
     return None
 
 
@@ -193,6 +207,20 @@ def window_cases(a_step=1):
     return out
 
 
+def preempted_cases(a_step=3):
+    """… and the same with the second waker *preempted* inside its wake: `p` of its steps, then `q` steps of the loop
+    (which drains, clears and empties the queue meanwhile), then the rest of the wake."""
+    out = []
+    for a in range(8, 30, a_step):
+        for p in range(1, 5):
+            for q in range(1, 16, 2):
+                sched = [0] * a + [1] * 6 + [2] * p + [0] * q + [2] * (6 - p) + [0] * 14 + [3] * 14 + [0] * 40
+                out.append(case_text("split_%d_%d_%d" % (a, p, q), 2,
+                                     ["schedule 0", "schedule 1"] + ["dispatch"] * 14,
+                                     ["wake 0", "wake 1", "complete 0 ; wake 0 ; complete 1 ; wake 1"], sched))
+    return out
+
+
 def batch_limit_case():
     """1025 runnables in one go (single-threaded): the batch limit must not strand the last one."""
     n = 1025
@@ -206,6 +234,7 @@ def run(res, tier, seed, search=False, have_drv=True):
     for i in range((250 if tier == "quick" else 8000) * (4 if search else 1)):
         cases.append(random_case(rnd, i))
     cases += window_cases(3 if tier == "quick" and not search else 1)
+    cases += preempted_cases(6 if tier == "quick" and not search else 2)
     impl, model = run_all(cases, have_drv)
     res.cov["evaluations"] = len(cases)
     res.cov["exhaustive"] = False
@@ -243,7 +272,7 @@ def run(res, tier, seed, search=False, have_drv=True):
     # directed search: the correspondence broke but no clause was violated on the schedules as generated
     if model is not None and res.broken and not res.violations:
         differing = [c for i, c in enumerate(cases) if impl[i] != model[i] and len(c[1].split()) > 1 and int(c[1].split()[1]) <= 8][:60]
-        ext = [extend_case(c, j) for j, c in enumerate(differing)] + (window_cases(1) if tier == "quick" and not search else [])
+        ext = [extend_case(c, j) for j, c in enumerate(differing)] + (window_cases(1) + preempted_cases(1) if tier == "quick" and not search else [])
         if ext:
             eimpl, _ = run_all(ext, False)
             res.cov["directed_search_schedules"] = len(ext)
